@@ -565,10 +565,17 @@ class BayesianNetwork(DAG):
             n_prev_samples = data.shape[0]
 
         # Step 1: Compute the pseudo_counts for the dirichlet prior.
-        pseudo_counts = {
-            var: compat_fns.to_numpy(self.get_cpds(var).get_values()) * n_prev_samples
-            for var in data.columns
-        }
+        # The estimator arranges the parents of each CPD in sorted order, so the
+        # pseudo counts have to be arranged in the same way.
+        pseudo_counts = {}
+        for var in data.columns:
+            cpd = self.get_cpds(var)
+            parents = list(cpd.variables[1:])
+            if parents != sorted(parents):
+                values = cpd.reorder_parents(sorted(parents), inplace=False)
+            else:
+                values = cpd.get_values()
+            pseudo_counts[var] = compat_fns.to_numpy(values) * n_prev_samples
 
         # Step 2: Get the current order of state names for aligning pseudo counts.
         state_names = {}
